@@ -117,7 +117,7 @@ func (t *Directive) Validate(root *Root) (errs []error) {
 				ErrValidation, t.Name(), a.Name(), a.Type, a.line, a.col))
 		}
 		for _, du := range a.Directives() {
-			errs = append(errs, root.validateDirUse(t.Name()+"."+a.Name(), LocArgumentDefinition, du)...)
+			errs = append(errs, root.validateSchemaDirUse(t.Name()+"."+a.Name(), LocArgumentDefinition, du)...)
 		}
 	}
 	if path := t.hasDirLoop(map[string]bool{t.Name(): true}, map[string]bool{}); 0 < len(path) {
